@@ -25,11 +25,14 @@ ValIdx(c, v, r) == LET s == ParentStart(c, v, r) IN 1 + CountChg(c, v, s + 1, r)
 \* divider modes: "none"; "second" = the second value of the innermost level is the divider '-----';
 \* "first" = under every outer group but the first, the FIRST innermost value is the divider and the
 \* following ones reuse the names of the first outer group (so a value can follow a divider with the
-\* same text it had under the previous outer group)
+\* same text it had under the previous outer group); "outer" = at every level but the innermost the second value
+\* (within its parent) is the divider, so that a group can differ from its predecessor only by an outer divider
+\* while the inner texts repeat
 PbName(v, i) == "~P" \o ToString(v) \o "." \o ToString(i) \o "~"
 PbText(c, v, r) ==
   LET i == ValIdx(c, v, r) IN
     IF c.div = "second" /\ v = c.nlev /\ i = 2 THEN "-----"
+    ELSE IF c.div = "outer" /\ v < c.nlev /\ i = 2 THEN "-----"
     ELSE IF c.div = "first" /\ v = c.nlev /\ c.nlev >= 2 /\ ValIdx(c, v - 1, r) >= 2
          THEN (IF i = 1 THEN "-----" ELSE PbName(v, i - 1))
     ELSE PbName(v, i)
